@@ -159,6 +159,9 @@ struct Cfg {
     env: CfgEnv,
     roots: HashSet<String>,
     macro_map: HashMap<String, String>,
+    /// R1b: calls of `<..>::A::b(..)` (last two path segments) redirected to a shim function
+    /// that states a precondition the std function panics on (e.g. `Vec::with_capacity`)
+    path_map: HashMap<String, String>,
     eff_path: HashMap<String, String>,
     eff_method: HashMap<String, String>,
     /// method effects derived from units (not listed in contracts/config.json): applied only at
@@ -266,7 +269,7 @@ fn subst_idents(text: &str, map: &HashMap<String, String>) -> String {
             let prev_dot = st > 0 && b[st - 1] == '.' && !(st > 1 && b[st - 2] == '.');
             let next_path = i + 1 < b.len() && b[i] == ':' && b[i + 1] == ':';
             match map.get(&w) {
-                Some(n) if !prev_dot && !next_path => out.push_str(n),
+                Some(n) if !prev_dot && (!next_path || w == "Self") => out.push_str(n),
                 _ => out.push_str(&w),
             }
         } else {
@@ -346,9 +349,17 @@ struct FileCtx<'a> {
     locals_out: BTreeMap<String, Vec<String>>,
     /// units whose function is not `pub` (private helpers): only these may be demoted
     private_units: Vec<String>,
+    /// nested `fn`s inside a unit body that the contracts do not list: "outer/inner" -> world mode
+    auto_nested: HashMap<String, String>,
+    /// I1 for such a nested fn called in TAIL position of its outer function with the same return
+    /// type (the `fn outer<P: AsRef<..>>(..) { fn inner(..) {..} inner(..) }` idiom): "outer/inner" ->
+    /// byte range of that call.  There `return` / `?` inside the nested body mean the same inlined.
+    tail_calls: HashMap<String, (usize, usize)>,
     /// I1: same-file helpers without a contract whose body is written out at their call sites
     inline_map: HashMap<String, InlineInfo>,
     no_inline: bool,
+    /// no vacuity probe for the function being processed (an unlisted nested fn)
+    no_probe: bool,
 }
 
 #[derive(Clone)]
@@ -920,7 +931,11 @@ impl<'a, 'b, 'ast> Visit<'ast> for BodyV<'a, 'b> {
             if (seglen == 1 || seglen == 2) && ep.qself.is_none() && !self.fc.no_inline {
                 let n = ep.path.segments[seglen - 1].ident.to_string();
                 let found = if seglen == 1 {
-                    self.fc.inline_map.get(&n).cloned()
+                    let nk = format!("{}/{}", self.outer_name, n);
+                    match self.fc.tail_calls.get(&nk) {
+                        Some(r) if *r == range_of(e) => self.fc.inline_map.get(&nk).cloned(),
+                        _ => self.fc.inline_map.get(&n).cloned(),
+                    }
                 } else {
                     let first = ep.path.segments[0].ident.to_string();
                     self.fc.inline_map.get(&format!("::{n}")).cloned().filter(|i| first == "Self" || i.owner.as_deref() == Some(first.as_str()))
@@ -984,6 +999,21 @@ impl<'a, 'b, 'ast> Visit<'ast> for BodyV<'a, 'b> {
                 }
             }
         }
+        // R1b: redirect listed `Type::function` calls to their shim
+        if let Expr::Path(ep) = &*e.func {
+            let n = ep.path.segments.len();
+            if n >= 2 && ep.qself.is_none() {
+                let k = format!("{}::{}", ep.path.segments[n - 2].ident, ep.path.segments[n - 1].ident);
+                if let Some(rep) = self.fc.cfg.path_map.get(&k).cloned() {
+                    let r = range_of(&ep.path);
+                    self.fc.edit(r.0, r.1, rep, "R1b.path_map");
+                    for a in e.args.iter() {
+                        self.visit_expr(a);
+                    }
+                    return;
+                }
+            }
+        }
         // R21: `Pin::new(E)` -> `E`
         if let Expr::Path(ep) = &*e.func {
             let segs: Vec<String> = ep.path.segments.iter().map(|s| s.ident.to_string()).collect();
@@ -1001,7 +1031,7 @@ impl<'a, 'b, 'ast> Visit<'ast> for BodyV<'a, 'b> {
             let mode = k2
                 .as_ref()
                 .and_then(|k| self.fc.cfg.eff_path.get(k))
-                .or_else(|| if k2.is_none() { self.fc.extra_eff.get(&k1).or_else(|| self.fc.cfg.eff_path.get(&k1)) } else { self.fc.cfg.eff_path.get(&format!("*::{k1}")).or_else(|| self.fc.cfg.eff_path.get(&k1)).or_else(|| self.fc.extra_eff.get(&format!("::{k1}"))) })
+                .or_else(|| if k2.is_none() { self.fc.extra_eff.get(&k1).or_else(|| self.fc.cfg.eff_path.get(&k1)) } else { self.fc.cfg.eff_path.get(&format!("*::{k1}")).or_else(|| self.fc.cfg.eff_path.get(&k1)).or_else(|| k2.as_ref().and_then(|k| self.fc.extra_eff.get(k))) })
                 .cloned();
             // nested fn call rename (hoisted inner functions)
             if k2.is_none() {
@@ -1013,6 +1043,13 @@ impl<'a, 'b, 'ast> Visit<'ast> for BodyV<'a, 'b> {
                     }
                     if nu.world != "none" {
                         let m = nu.world.clone();
+                        self.add_world_arg(e.paren_token.span.close(), !e.args.is_empty(), e.args.trailing_punct(), &m, &k1);
+                    }
+                    self.visit_call_parts(e);
+                    return;
+                }
+                if let Some(m) = self.fc.auto_nested.get(&key).cloned() {
+                    if m != "none" {
                         self.add_world_arg(e.paren_token.span.close(), !e.args.is_empty(), e.args.trailing_punct(), &m, &k1);
                     }
                     self.visit_call_parts(e);
@@ -1195,6 +1232,26 @@ impl<'a, 'b, 'ast> Visit<'ast> for BodyV<'a, 'b> {
                     let r = br(wp.underscore_token.span());
                     self.fc.edit(r.0, r.1, format!("_w{i}"), "R18.closure_wild");
                 }
+            }
+            // R18b: ... and patterns: `|(a, b)| BODY` -> `|__p0| { let (a, b) = __p0; BODY }`
+            let mut destructure = String::new();
+            for (i, p) in c.inputs.iter().enumerate() {
+                let (pat, ty): (&Pat, Option<&Type>) = match p {
+                    Pat::Type(pt) => (&*pt.pat, Some(&*pt.ty)),
+                    other => (other, None),
+                };
+                if matches!(pat, Pat::Tuple(_) | Pat::TupleStruct(_) | Pat::Struct(_) | Pat::Reference(_)) {
+                    let pr = range_of(pat);
+                    let ptxt = self.fc.text(pr).to_string();
+                    self.fc.edit(pr.0, pr.1, format!("__p{i}"), "R18b.closure_pattern");
+                    let _ = ty;
+                    destructure.push_str(&format!("let {ptxt} = __p{i}; "));
+                }
+            }
+            if !destructure.is_empty() {
+                let br_ = range_of(&*c.body);
+                self.fc.edit_ord(br_.0, br_.0, format!("{{ {destructure}"), "R18b.closure_pattern", -3);
+                self.fc.edit_ord(br_.1, br_.1, " }", "R18b.closure_pattern", 3);
             }
         }
         // closures nested in this closure's body are not arguments of the enclosing call
@@ -1466,10 +1523,11 @@ impl<'a, 'b, 'ast> Visit<'ast> for BodyV<'a, 'b> {
         // nested fn inside a unit body
         let key = format!("{}/{}", self.outer_name, f.sig.ident);
         let nu = self.nested_units.get(&key).cloned();
+        let auto_world = self.fc.auto_nested.get(&key).cloned();
         let u = nu.unwrap_or_else(|| {
             let mut u = UnitCfg::default();
             u.id = key.clone();
-            u.world = "none".into();
+            u.world = auto_world.unwrap_or_else(|| "none".into());
             u
         });
         if self.nested_units.contains_key(&key) {
@@ -1479,7 +1537,48 @@ impl<'a, 'b, 'ast> Visit<'ast> for BodyV<'a, 'b> {
             self.fc.edit_ord(r.0, r.0, format!("// @UNIT {} {}:{}-{}\n", u.id, self.fc.fname, l1, l2), "W.marker", -30);
             self.fc.edit_ord(r.1, r.1, "\n// @ENDUNIT", "W.marker", 30);
         }
+        let listed = self.nested_units.contains_key(&key);
+        let saved = self.fc.no_inline;
+        let saved_probe = self.fc.no_probe;
+        self.fc.no_probe = !listed;
         process_fn(self.fc, &f.attrs, &f.vis, &f.sig, Some(&f.block), &u, self.nested_units, &key, false);
+        self.fc.no_probe = saved_probe;
+        self.fc.no_inline = saved;
+        if !listed && self.fc.tail_calls.contains_key(&key) && !self.fc.no_inline {
+            let simple_params = f.sig.inputs.iter().all(|a| match a {
+                FnArg::Typed(pt) => matches!(&*pt.pat, Pat::Ident(pi) if pi.by_ref.is_none() && pi.subpat.is_none()),
+                _ => false,
+            });
+            struct HasLoop(bool);
+            impl<'ast> Visit<'ast> for HasLoop {
+                fn visit_expr_loop(&mut self, _r: &'ast ExprLoop) { self.0 = true; }
+                fn visit_expr_while(&mut self, _r: &'ast ExprWhile) { self.0 = true; }
+                fn visit_expr_for_loop(&mut self, _r: &'ast ExprForLoop) { self.0 = true; }
+                fn visit_expr_closure(&mut self, _c: &'ast ExprClosure) {}
+                fn visit_item(&mut self, _i: &'ast Item) {}
+            }
+            let mut hl = HasLoop(false);
+            hl.visit_block(&f.block);
+            if simple_params && f.sig.generics.params.is_empty() && !hl.0 {
+                let mut errs = vec![];
+                let (body, _) = apply_edits(self.fc.src, range_of(&*f.block), &self.fc.edits, &mut errs);
+                let body: String = body.lines().filter(|l| !l.contains("// @VACUITY")).collect::<Vec<_>>().join("\n");
+                let mut params = vec![];
+                for a in f.sig.inputs.iter() {
+                    if let FnArg::Typed(pt) = a {
+                        if let Pat::Ident(pi) = &*pt.pat {
+                            let (ty, _) = apply_edits(self.fc.src, range_of(&*pt.ty), &self.fc.edits, &mut errs);
+                            let ty = ty.split(", Tracked(w)").next().unwrap_or("").to_string();
+                            params.push((pi.ident.to_string(), ty, pi.mutability.is_some()));
+                        }
+                    }
+                }
+                self.fc.inline_map.insert(key.clone(), InlineInfo { params, ret: None, body, world: u.world.clone(), owner: None });
+                // its own copy keeps the signature only (it is verified where it is written out)
+                let st = range_of(f).0;
+                self.fc.edit_ord(st, st, "#[verifier::external_body]\n", "I1.nested_tail", -31);
+            }
+        }
     }
 
     fn visit_stmt(&mut self, s: &'ast Stmt) {
@@ -1562,6 +1661,36 @@ fn process_fn(
     fc.locals_out.insert(u.id.clone(), now.clone());
     if matches!(_vis, Visibility::Inherited) && !in_trait_decl {
         fc.private_units.push(u.id.clone());
+    }
+    // nested fns that the contracts do not list get the world mode their body needs
+    if let Some(b) = block {
+        for st in &b.stmts {
+            if let Stmt::Item(Item::Fn(nf)) = st {
+                let key = format!("{}/{}", outer_name, nf.sig.ident);
+                if !nested.contains_key(&key) {
+                    let mut sc = EffScan { cfg: fc.cfg, auto_modes: &fc.extra_eff, mode: 0 };
+                    sc.visit_block(&nf.block);
+                    let md = match sc.mode { 2 => "mut", 1 => "ro", _ => "none" };
+                    fc.auto_nested.insert(key.clone(), md.to_string());
+                    // tail call of it with the same return type?
+                    let same_ret = nf.sig.output.to_token_stream().to_string() == sig.output.to_token_stream().to_string();
+                    if let Some(Stmt::Expr(last, None)) = b.stmts.last() {
+                        let call = match last {
+                            Expr::Call(c) => Some(c),
+                            Expr::Await(a) => match &*a.base { Expr::Call(c) => Some(c), _ => None },
+                            _ => None,
+                        };
+                        if let Some(c) = call {
+                            if let Expr::Path(ep) = &*c.func {
+                                if ep.path.is_ident(&nf.sig.ident) && same_ret && nf.sig.asyncness.is_some() == sig.asyncness.is_some() {
+                                    fc.tail_calls.insert(key, range_of(c));
+                                }
+                            }
+                        }
+                    }
+                }
+            }
+        }
     }
     let renamed: UnitCfg;
     let u: &UnitCfg = if !u.locals_base.is_empty() && u.locals_base.len() == now.len() && u.locals_base != now {
@@ -1864,7 +1993,7 @@ fn process_fn(
             if mut_self {
                 bv.fc.edit_ord(open, open, " let mut this = self;", "R6.mutself", 1);
             }
-            if bv.fc.cfg.vacuity_probe {
+            if bv.fc.cfg.vacuity_probe && !bv.fc.no_probe {
                 bv.fc.edit_ord(open, open, "\nproof { assert(false); } // @VACUITY\n", "W.vacuity_probe", 3);
             }
             if !u.body_open.is_empty() {
@@ -1982,6 +2111,13 @@ impl<'o, 'ast> Visit<'ast> for IdentScan<'o> {
     fn visit_path(&mut self, p: &'ast Path) {
         if p.leading_colon.is_none() && p.segments.len() == 1 {
             self.out.insert(p.segments[0].ident.to_string());
+        }
+        // `Type::Variant`, `Type::function`: the type may be an item of this file
+        if p.leading_colon.is_none() && p.segments.len() == 2 {
+            let first = p.segments[0].ident.to_string();
+            if first.chars().next().map(|c| c.is_uppercase()).unwrap_or(false) && first != "Self" {
+                self.out.insert(first);
+            }
         }
         visit::visit_path(self, p);
     }
@@ -2251,6 +2387,7 @@ fn main() {
         cross_calls,
         roots: cfgv["roots"].as_array().unwrap().iter().map(|x| x.as_str().unwrap().to_string()).collect(),
         macro_map: getmap("macro_map"),
+        path_map: getmap("path_map"),
         eff_path: getmap("effects_path"),
         eff_method: getmap("effects_method"),
         iter_renames: getmap("iter_renames"),
@@ -2324,10 +2461,12 @@ fn main() {
         // WITHOUT a contract: callers see no postcondition for them.
         let mut auto_names: Vec<String> = vec![];
         let mut auto_items: Vec<String> = vec![];
+        let mut auto_types: HashSet<String> = HashSet::new();
         let mut extra_eff: HashMap<String, String> = HashMap::new();
         {
             let mut top_fns: HashMap<String, &ItemFn> = HashMap::new();
             let mut top_vals: HashSet<String> = HashSet::new();
+            let mut top_types: HashMap<String, &Item> = HashMap::new();
             for item in &file.items {
                 match item {
                     Item::Fn(f) => {
@@ -2348,6 +2487,16 @@ fn main() {
                     Item::Type(c) => {
                         if cfg.env.attrs_on(&c.attrs).unwrap_or(false) {
                             top_vals.insert(c.ident.to_string());
+                        }
+                    }
+                    Item::Struct(c) => {
+                        if cfg.env.attrs_on(&c.attrs).unwrap_or(false) {
+                            top_types.insert(c.ident.to_string(), item);
+                        }
+                    }
+                    Item::Enum(c) => {
+                        if cfg.env.attrs_on(&c.attrs).unwrap_or(false) {
+                            top_types.insert(c.ident.to_string(), item);
                         }
                     }
                     _ => {}
@@ -2385,6 +2534,28 @@ fn main() {
                     _ => {}
                 }
             }
+            // ... and what the fields of the kept struct / enum items mention
+            for item in &file.items {
+                let kept = match item {
+                    Item::Struct(c) => keep_items.contains(&c.ident.to_string()),
+                    Item::Enum(c) => keep_items.contains(&c.ident.to_string()),
+                    _ => false,
+                };
+                if kept {
+                    struct FieldIdents<'o> {
+                        out: &'o mut HashSet<String>,
+                    }
+                    impl<'o, 'ast> Visit<'ast> for FieldIdents<'o> {
+                        fn visit_path(&mut self, p: &'ast Path) {
+                            for sgm in p.segments.iter() {
+                                self.out.insert(sgm.ident.to_string());
+                            }
+                            visit::visit_path(self, p);
+                        }
+                    }
+                    FieldIdents { out: &mut seen }.visit_item(item);
+                }
+            }
             let mut work: Vec<String> = seen.iter().cloned().collect();
             let mut done: HashSet<String> = HashSet::new();
             while let Some(n) = work.pop() {
@@ -2404,6 +2575,64 @@ fn main() {
                     }
                 } else if top_vals.contains(&n) && !keep_items.contains(&n) && !cfg.opaque_auto.contains(&format!("item:{}:{}", fname, n)) {
                     auto_items.push(n.clone());
+                    // what the item's type / initialiser mentions
+                    for item in &file.items {
+                        let hit = match item {
+                            Item::Const(c) => c.ident == n,
+                            Item::Static(c) => c.ident == n,
+                            Item::Type(c) => c.ident == n,
+                            _ => false,
+                        };
+                        if hit {
+                            struct AllIdents<'o> {
+                                out: &'o mut HashSet<String>,
+                            }
+                            impl<'o, 'ast> Visit<'ast> for AllIdents<'o> {
+                                fn visit_path(&mut self, p: &'ast Path) {
+                                    for sgm in p.segments.iter() {
+                                        self.out.insert(sgm.ident.to_string());
+                                    }
+                                    visit::visit_path(self, p);
+                                }
+                            }
+                            let mut more = HashSet::new();
+                            AllIdents { out: &mut more }.visit_item(item);
+                            more.remove(&n);
+                            work.extend(more.into_iter());
+                        }
+                    }
+                } else if top_types.contains_key(&n) && !keep_items.contains(&n) && !cfg.opaque_auto.contains(&format!("item:{}:{}", fname, n)) {
+                    // a struct / enum of this file that the contracts do not list (introduced by a
+                    // later change): copied like a kept item, its inherent methods become
+                    // contract-less units, its trait impls (Drop, ...) are left out
+                    auto_items.push(n.clone());
+                    auto_types.insert(n.clone());
+                    struct TyIdents<'o> {
+                        out: &'o mut HashSet<String>,
+                    }
+                    impl<'o, 'ast> Visit<'ast> for TyIdents<'o> {
+                        fn visit_path(&mut self, p: &'ast Path) {
+                            for sgm in p.segments.iter() {
+                                self.out.insert(sgm.ident.to_string());
+                            }
+                            visit::visit_path(self, p);
+                        }
+                    }
+                    let mut more = HashSet::new();
+                    TyIdents { out: &mut more }.visit_item(top_types[&n]);
+                    for item in &file.items {
+                        if let Item::Impl(im) = item {
+                            if im.trait_.is_none() && self_ty_key(&im.self_ty).split('<').next().unwrap_or("") == n && cfg.env.attrs_on(&im.attrs).unwrap_or(false) {
+                                for ii in &im.items {
+                                    if let ImplItem::Fn(m) = ii {
+                                        collect_idents_method(m, &mut more);
+                                    }
+                                }
+                            }
+                        }
+                    }
+                    more.remove(&n);
+                    work.extend(more.into_iter());
                 }
             }
             // world modes of the auto helpers (fixpoint over their mutual calls)
@@ -2463,7 +2692,12 @@ fn main() {
                     let key = impl_key(im);
                     // only impl blocks of types the contracts already cover (some method is a unit)
                     let covered = im.items.iter().any(|ii| if let ImplItem::Fn(m) = ii { units.get(&format!("impl:{}/{}", key, m.sig.ident)).map(|u| !u.id.starts_with("auto:")).unwrap_or(false) } else { false });
-                    if !covered {
+                    let base_ty = self_ty_key(&im.self_ty).split('<').next().unwrap_or("").to_string();
+                    // inherent impl blocks of KEPT types that the contracts do not mention at all
+                    // (a new `impl SerializableMetadata { fn into_record(..) }`) are taken whole,
+                    // like those of auto-included types
+                    let of_auto_type = auto_types.contains(&base_ty) || (!covered && keep_items.contains(&base_ty));
+                    if !covered && !of_auto_type {
                         continue;
                     }
                     for ii in &im.items {
@@ -2472,8 +2706,8 @@ fn main() {
                             let at = format!("impl:{}/{}", key, n);
                             let has_self = matches!(m.sig.inputs.first(), Some(FnArg::Receiver(_)));
                             let assoc_called = !has_self && (called.contains(&format!("Self::{n}")) || called.contains(&format!("{}::{n}", self_ty_key(&im.self_ty))));
-                            if ((has_self && called.contains(&n)) || assoc_called) && !units.contains_key(&at) && cfg.env.attrs_on(&m.attrs).unwrap_or(false)
-                                && !cfg.eff_method.contains_key(&format!(".{n}")) {
+                            if ((has_self && called.contains(&n)) || assoc_called || of_auto_type) && !units.contains_key(&at) && cfg.env.attrs_on(&m.attrs).unwrap_or(false)
+                                && (!cfg.eff_method.contains_key(&format!(".{n}")) || of_auto_type) {
                                 let mut sc = EffScan { cfg: &cfg, auto_modes: &modes, mode: 0 };
                                 sc.visit_block(&m.block);
                                 let md = match sc.mode { 2 => "mut", 1 => "ro", _ => "none" };
@@ -2484,7 +2718,9 @@ fn main() {
                                 if has_self {
                                     extra_eff.insert(format!(".{n}"), md.to_string());
                                 } else {
-                                    extra_eff.insert(format!("::{n}"), md.to_string());
+                                    // associated function: `Type::f(..)` from anywhere, `Self::f(..)` inside the impl
+                                    extra_eff.insert(format!("{base_ty}::{n}"), md.to_string());
+                                    extra_eff.insert(format!("Self::{n}"), md.to_string());
                                 }
                                 units.insert(at, u);
                                 auto_names.push(format!("{key}::{n}"));
@@ -2529,7 +2765,7 @@ fn main() {
                 }
             }
         }
-        let mut fc = FileCtx { cfg: &cfg, src: &src, edits: vec![], rule_counts: BTreeMap::new(), errors: vec![], warnings: vec![], degraded: vec![], extra_eff: extra_eff.clone(), fname: fname.clone(), ro_violations: vec![], field_types: field_types.clone(), locals_out: BTreeMap::new(), private_units: vec![], inline_map: HashMap::new(), no_inline: false };
+        let mut fc = FileCtx { cfg: &cfg, src: &src, edits: vec![], rule_counts: BTreeMap::new(), errors: vec![], warnings: vec![], degraded: vec![], extra_eff: extra_eff.clone(), fname: fname.clone(), ro_violations: vec![], field_types: field_types.clone(), locals_out: BTreeMap::new(), private_units: vec![], auto_nested: HashMap::new(), tail_calls: HashMap::new(), inline_map: HashMap::new(), no_inline: false, no_probe: false };
         // segments to keep: (start, end, kind, name)
         let mut segs: Vec<(usize, usize, String, String)> = vec![];
         let mut found_units: HashSet<String> = HashSet::new();
@@ -2566,7 +2802,7 @@ fn main() {
                 if !simple_params || !f.sig.generics.params.is_empty() || f.sig.asyncness.is_some() || block_leaves(&f.block) || ids.contains(&name) {
                     continue;
                 }
-                let mut scratch = FileCtx { cfg: &cfg, src: &src, edits: vec![], rule_counts: BTreeMap::new(), errors: vec![], warnings: vec![], degraded: vec![], extra_eff: extra_eff.clone(), fname: fname.clone(), ro_violations: vec![], field_types: field_types.clone(), locals_out: BTreeMap::new(), private_units: vec![], inline_map: HashMap::new(), no_inline: true };
+                let mut scratch = FileCtx { cfg: &cfg, src: &src, edits: vec![], rule_counts: BTreeMap::new(), errors: vec![], warnings: vec![], degraded: vec![], extra_eff: extra_eff.clone(), fname: fname.clone(), ro_violations: vec![], field_types: field_types.clone(), locals_out: BTreeMap::new(), private_units: vec![], auto_nested: HashMap::new(), tail_calls: HashMap::new(), inline_map: HashMap::new(), no_inline: true, no_probe: false };
                 process_fn(&mut scratch, &f.attrs, &f.vis, &f.sig, Some(&f.block), &u, &nested, &name, false);
                 let mut errs = vec![];
                 let (body, _) = apply_edits(&src, range_of(&*f.block), &scratch.edits, &mut errs);
@@ -2619,7 +2855,7 @@ fn main() {
                             || ids.contains(&format!("Self::{name}")) || !cfg.env.attrs_on(&m.attrs).unwrap_or(false) || fc.inline_map.contains_key(&format!("::{name}")) {
                             continue;
                         }
-                        let mut scratch = FileCtx { cfg: &cfg, src: &src, edits: vec![], rule_counts: BTreeMap::new(), errors: vec![], warnings: vec![], degraded: vec![], extra_eff: extra_eff.clone(), fname: fname.clone(), ro_violations: vec![], field_types: field_types.clone(), locals_out: BTreeMap::new(), private_units: vec![], inline_map: HashMap::new(), no_inline: true };
+                        let mut scratch = FileCtx { cfg: &cfg, src: &src, edits: vec![], rule_counts: BTreeMap::new(), errors: vec![], warnings: vec![], degraded: vec![], extra_eff: extra_eff.clone(), fname: fname.clone(), ro_violations: vec![], field_types: field_types.clone(), locals_out: BTreeMap::new(), private_units: vec![], auto_nested: HashMap::new(), tail_calls: HashMap::new(), inline_map: HashMap::new(), no_inline: true, no_probe: false };
                         process_fn(&mut scratch, &m.attrs, &m.vis, &m.sig, Some(&m.block), &u, &nested, &name, false);
                         let mut errs = vec![];
                         let (body, _) = apply_edits(&src, range_of(&m.block), &scratch.edits, &mut errs);
@@ -2638,6 +2874,12 @@ fn main() {
                             ReturnType::Type(_, t) => Some(apply_edits(&src, range_of(&**t), &scratch.edits, &mut errs).0),
                             ReturnType::Default => None,
                         };
+                        // `Self` means the impl's type, also where the body is written out elsewhere
+                        let mut selfmap: HashMap<String, String> = HashMap::new();
+                        selfmap.insert("Self".to_string(), src[range_of(&*im.self_ty).0..range_of(&*im.self_ty).1].to_string());
+                        let body = subst_idents(&body, &selfmap);
+                        let params: Vec<(String, String, bool)> = params.into_iter().map(|(a, t, m)| (a, subst_idents(&t, &selfmap), m)).collect();
+                        let ret = ret.map(|t| subst_idents(&t, &selfmap));
                         fc.inline_map.insert(format!("::{name}"), InlineInfo { params, ret, body, world: u.world.clone(), owner: Some(self_ty_key(&im.self_ty)) });
                         inlined_helpers.push(u.id.clone());
                         inline_ats.push(at.clone());
@@ -2714,6 +2956,26 @@ fn main() {
                     }
                     found_items.insert(name.clone());
                     fc.strip_attrs(attrs);
+                    if auto_types.contains(&name) {
+                        // an auto-included type keeps the derives Verus understands
+                        let mut keep: Vec<String> = vec![];
+                        for a in attrs.iter() {
+                            if a.path().is_ident("derive") {
+                                let _ = a.parse_nested_meta(|m| {
+                                    if let Some(id) = m.path.get_ident() {
+                                        let d = id.to_string();
+                                        if ["Clone", "Copy", "Debug", "Default", "PartialEq", "Eq"].contains(&d.as_str()) {
+                                            keep.push(d);
+                                        }
+                                    }
+                                    Ok(())
+                                });
+                            }
+                        }
+                        if !keep.is_empty() {
+                            fc.edit_ord(r.0, r.0, format!("#[derive({})]\n", keep.join(", ")), "R1.attr.derive_kept", -25);
+                        }
+                    }
                     // nested attrs (fields / variants) + paths
                     struct ItemV<'x, 'y, 'z> {
                         bv: BodyV<'x, 'y>,
